@@ -699,7 +699,10 @@ def cli_tables(ctx):
     # (a root that differs from the bundled one in element 012101 of version 33: scale 1, 18 bits)
     if ctx.shard % 4 == 0 or not ctx.quick:
         from mon.cli import alt_tables_root
-        root = alt_tables_root(os.environ.get('VERIF_SCRATCH') or os.path.join(os.environ.get('VERIF_DIR', '/verif'), '.scratch'))
+        # (a directory of this shard's own: several shards build their copy at the same time)
+        own = os.path.join(os.environ.get('VERIF_SCRATCH') or os.path.join(os.environ.get('VERIF_DIR', '/verif'), '.scratch'), 'c14-%d' % ctx.shard)
+        os.makedirs(own, exist_ok=True)
+        root = alt_tables_root(own)
         Balt, Dalt = R.load_tables(0, 0, 0, 33, 0, root=root)
         spec = dict(part='cli-tables-root-option')
         for argv, what in ((['-t', root, 'lookup', '012101', '--master-table-version', '33'], 'before-the-command'),
